@@ -104,7 +104,7 @@ def _check_xtext(ctx):
     bad_val = bad_len = None
     for v in range(256):
         unit = _xtext_ref(v)
-        for tail, tail_text in ((b"", ""), (b"41", "41"), (b"+41z", "Az"), (b"a+2B", "a+")):
+        for tail, tail_text in ((b"", ""), (b"41", "41"), (b"+41z", "Az"), (b"a+2B", "a+"), (b"%41", "%41"), (b"a%2B%", "a%2B%"), (b"%+25", "%%")):
             got, err = _call(dec, unit + tail)
             if err is not None:
                 bad_val = bad_val or (v, unit + tail, err)
@@ -116,7 +116,7 @@ def _check_xtext(ctx):
                 bad_len = (v, unit + tail, got)
     ctx.check(bad_val is None, "xtext/decode-inverts", q + " | value",
               bad_val and f"decoding {bad_val[1]!r} gives {bad_val[2]!r}; the first unit encodes byte 0x{bad_val[0]:02x} and the rest must be framed after exactly that unit",
-              detail="256 encoded units x 4 continuations")
+              detail="256 encoded units x 7 continuations (incl. literal '%XX', which is ordinary xtext data)")
     ctx.check(bad_len is None, "xtext/decode-inverts", q + " | consumed length",
               bad_len and f"decoding {bad_len[1]!r} reports {bad_len[2][1]} consumed units instead of {len(bad_len[1])}")
 
@@ -276,6 +276,9 @@ MUTANTS = [
     Mutant("xtext-decode-short-advance", SMTP, "                r.append(ord(s[i : i + 3]))\n            i += 3\n", "                r.append(ord(s[i : i + 3]))\n            i += 2\n",
            expect_rule="xtext/decode-inverts"),
     Mutant("xtext-decode-one-digit", SMTP, "int(bytes(s[i + 1 : i + 3]), 16)", "int(bytes(s[i + 1 : i + 2]), 16)", expect_rule="xtext/decode-inverts"),
+    Mutant("xtext-decode-via-percent-unquoting", SMTP, "    r = []\n    i = 0\n    while i < len(s):\n        if s[i : i + 1] == b\"+\":\n",
+           "    from urllib.parse import unquote_to_bytes\n\n    return (unquote_to_bytes(bytes(s).replace(b\"+\", b\"%\")).decode(\"latin-1\"), len(s))\n    r = []\n    i = 0\n    while i < len(s):\n        if s[i : i + 1] == b\"+\":\n",
+           expect_rule="xtext/decode-inverts"),
     Mutant("utf7-ampersand-valid", IMAP, '    valid_chars = set(map(chr, range(0x20, 0x7F))) - {"&"}\n', '    valid_chars = set(map(chr, range(0x20, 0x7F)))\n', expect_rule="utf7/"),
     Mutant("utf7-del-direct", IMAP, '    valid_chars = set(map(chr, range(0x20, 0x7F))) - {"&"}\n', '    valid_chars = set(map(chr, range(0x20, 0x80))) - {"&"}\n', expect_rule="utf7/direct-set"),
     Mutant("utf7-space-routed", IMAP, '    valid_chars = set(map(chr, range(0x20, 0x7F))) - {"&"}\n', '    valid_chars = set(map(chr, range(0x21, 0x7F))) - {"&"}\n', expect_rule="utf7/"),
@@ -297,6 +300,9 @@ SILENT = [
     Silent("xtext-as-comprehension", SMTP, "    r = []\n    for ch in iterbytes(s):\n        o = ord(ch)\n" + _XT +
            '            r.append(networkString(f"+{o:02X}"))\n        else:\n            r.append(bytes((o,)))\n    return (b"".join(r), len(s))\n',
            '    raw = set(range(33, 127)) - {43, 61}\n    return (b"".join(bytes((o,)) if o in raw else b"+%02X" % (o,) for o in s), len(s))\n'),
+    Silent("xtext-decode-via-percent-unquoting-protected", SMTP, "    r = []\n    i = 0\n    while i < len(s):\n        if s[i : i + 1] == b\"+\":\n",
+           "    from urllib.parse import unquote_to_bytes\n\n    if all(c in b\"0123456789ABCDEFabcdef\" for k in range(len(s)) if s[k : k + 1] == b\"+\" for c in bytes(s[k + 1 : k + 3]).ljust(2, b\"!\")):\n"
+           "        return (unquote_to_bytes(bytes(s).replace(b\"%\", b\"%25\").replace(b\"+\", b\"%\")).decode(\"latin-1\"), len(s))\n    r = []\n    i = 0\n    while i < len(s):\n        if s[i : i + 1] == b\"+\":\n"),
     Silent("xtext-percent-format", SMTP, 'networkString(f"+{o:02X}")', 'b"+%02X" % (o,)'),
     Silent("utf7-valid-chars-comprehension", IMAP, '    valid_chars = set(map(chr, range(0x20, 0x7F))) - {"&"}\n', '    valid_chars = {chr(x) for x in range(32, 127) if x != 0x26}\n'),
     Silent("F41b-repaired-base64-helper", IMAP, '    s_utf7 = s.encode("utf-7")\n    return s_utf7[1:-1].replace(b"/", b",")\n',
